@@ -324,8 +324,8 @@ class ElectronicControlUnit:
                     logger.debug("Deadline for event reached")
                     if event['callback']( event['cookie'] ) == True:
                         # "true" means the callback wants to be called again
-                        while event['deadline'] < now:
-                            # just to take care of overruns
+                        while event['deadline'] <= now:
+                            # just to take care of overruns (a deadline equal to 'now' has been served as well)
                             event['deadline'] += event['delta_time']
                         # recalc next wakeup
                         if next_wakeup > event['deadline']:
